@@ -44,6 +44,11 @@ ASSUMPTIONS = [
 KINDS = ("supervised", "semi", "unsup")
 
 
+EXPECTED_PROBES = ['asymmetric_metric', 'call_raises_consistently', 'file_overwritten_after_a_model_read_it', 'fit_after_file_overwritten', 'integer_valued_metric', 'non_identity_index_array', 'path_overwritten', 'unsupervised_best_k_gt_1']
+
+SLOW_ARMS = ("restart",)
+
+
 def arms(tier):
     if tier == "thorough":
         return [("mixed", 1_600_000), ("restart", 12_000)]
